@@ -26,6 +26,27 @@ func (*Checker).setRuntimeGlobalEnv
   assigns c.runtimeEnv, c.selfType, c.constantScopes, c.methodScopes, fresh
   ensures env: c.runtimeEnv == newEnv
 
+// the snapshot of the local environments shares no environment and no local with the live
+// ones: every environment of the copy and every local bound in it is a new object, so that
+// whatever a rejected input does to a live local in place (initialise it, narrow its type) is
+// not visible through the snapshot that replaces it
+func (*Checker).deepCopyLocalEnvs
+  props C27
+  nosafety
+  requires c != nil && (forall k int :: 0 <= k && k < len(c.localEnvs) ==> elem(c.localEnvs, k) != nil)
+  ensures len: len(ret) == len(c.localEnvs)
+  ensures envs: forall i int :: 0 <= i && i < len(ret) ==> fresh(elem(ret, i))
+  ensures locals: forall i int, k value.Symbol :: 0 <= i && i < len(ret) && mapHas(elem(ret, i).locals, k) ==> fresh(elem(ret, i).locals[k])
+  loop 1
+    invariant len(newLocalEnvs) == range_idx && c.localEnvs == old(c.localEnvs)
+    invariant envs: forall i int :: 0 <= i && i < len(newLocalEnvs) ==> fresh(elem(newLocalEnvs, i))
+    invariant locals: forall i int, k value.Symbol :: 0 <= i && i < len(newLocalEnvs) && mapHas(elem(newLocalEnvs, i).locals, k) ==> fresh(elem(newLocalEnvs, i).locals[k])
+  loop 2
+    invariant fresh(newLocalEnv) && c.localEnvs == old(c.localEnvs)
+    invariant envs: forall i int :: 0 <= i && i < len(newLocalEnvs) ==> fresh(elem(newLocalEnvs, i))
+    invariant locals: forall i int, k value.Symbol :: 0 <= i && i < len(newLocalEnvs) && mapHas(elem(newLocalEnvs, i).locals, k) ==> fresh(elem(newLocalEnvs, i).locals[k])
+    invariant cur: forall k value.Symbol :: mapHas(newLocalEnv.locals, k) ==> fresh(newLocalEnv.locals[k])
+
 func (*Checker).CheckSource
   props C27
   nosafety
